@@ -1,7 +1,7 @@
 """C20 - an unparseable file is skipped without disturbing the rest (partial).  DESIGN.md section 6, C20."""
 from __future__ import annotations
 import time
-from harness.core import Task, OR, PROVED, REFUTED
+from harness.core import Task, OR, PROVED, REFUTED, UNKNOWN
 from contracts import containment, scanners, docstrings, readerblocks
 from contracts.common import *
 
@@ -16,7 +16,11 @@ def _replay(fn):
             hit = c20.search()
             for r in res:
                 if r.status == REFUTED and r.replay is None:
-                    r.replay = hit
+                    if hit:
+                        r.replay = hit
+                    else:       # a form that is not recognised, and no failing input from the stand-in: undecided (DESIGN 4.2 / 11.5), not a violation
+                        r.status = UNKNOWN
+                        r.detail = ((r.detail + "; ") if r.detail else "") + "the code is not of the recognised form; the property's stand-in finds no failing input"
         return res
     return run
 
@@ -76,6 +80,7 @@ def build(tier, seed):
         return mk
     # termination: the loop variants of the scanners / readers are part of their contracts (re-used here under C20's id)
     tasks = [Task(f"{PROP}.S.instance_state", PROP, "reader / parser classes", lambda: __import__("contracts.plumbing", fromlist=["x"]).no_shared_mutable_state(PROP, replay=lambda: __import__("bounded.c20", fromlist=["x"]).leak_cases())),
+             Task(f"{PROP}.B.ambiguous_repeats", PROP, "compiled patterns", lambda: __import__("contracts.rx_lex", fromlist=["x"]).ambiguous_repeat_obligations(PROP)),
              Task(f"{PROP}.S.preprocessor_exit", PROP, "FortranReader.__init__", lambda: containment.preprocessor_exit_obligations(PROP)),
              Task(f"{PROP}.S.default_not_shared", PROP, "mutable default arguments", lambda: __import__("contracts.plumbing", fromlist=["x"]).mutable_defaults_not_shared(PROP, ("ford.sourceform", "ford.reader", "ford.fortran_project"), lambda: __import__("bounded.c20", fromlist=["x"]).leak_cases())),
              Task(f"{PROP}.S.diagnostics_allocate_nothing", PROP, "FortranContainer.print_error", lambda: containment.diagnostics_allocate_nothing(PROP, lambda: __import__("bounded.c20", fromlist=["x"]).name_allocation_case())),
